@@ -489,6 +489,10 @@ def tr_block(cx, env, stmts, ret_ty, tail):
         return cont(env)        # docstring
     if isinstance(s, ast.Pass):
         return cont(env)
+    if (isinstance(s, ast.If) and isinstance(s.test, ast.Name) and s.test.id == 'LOG' and not s.orelse
+            and all(isinstance(b, ast.Expr) and isinstance(b.value, ast.Call) and isinstance(b.value.func, ast.Name)
+                    and b.value.func.id == 'LOG' for b in s.body)):
+        return cont(env)        # `if LOG: LOG(...)`: debug output only (that logging changes no outcome is C12's matter)
     if unparse(s).strip() in cx.spec.get('skip', []):
         return cont(env)        # a statement outside the computation (declared in kernels.json, matched verbatim)
     if isinstance(s, ast.Delete):
